@@ -189,16 +189,23 @@ def enterTraps (env : Env) (ignoreSigintSigquit keepStoppers : Bool) : Env :=
   let st := Trap.enterSubshell { sys := env.system.sys, traps := env.traps } ignoreSigintSigquit keepStoppers
   { env with traps := st.traps, system := { env.system with sys := st.sys } }
 
-/-- push `Frame::Subshell`; (no job control: `monitor` is off) `jobs.disown_all()`; `enter_subshell` -/
-def subshellEntry (ignoreSigintSigquit : Bool) (env : Env) : Env :=
+/-- push `Frame::Subshell`; (`setpgid`/`tcsetpgrp` of a job-controlled subshell touch nothing the property names;)
+    `jobs.disown_all()`; `enter_subshell(ignore_sigint_sigquit, keep_internal_dispositions_for_stoppers)`.
+    Note that the options are NOT touched: the child keeps the parent's option set, `monitor` included. -/
+def subshellEntry (ignoreSigintSigquit keepStoppers : Bool) (env : Env) : Env :=
   let e1 := { env with stack := "Subshell" :: env.stack }
   let e2 := { e1 with jobs := ([], e1.jobs.2) }
-  enterTraps e2 ignoreSigintSigquit true
+  enterTraps e2 ignoreSigintSigquit keepStoppers
 
-/-- `Config::start(env, task)`: the parent's environment after the call and the child's final environment -/
-def startSubshell {β : Type} (copied : List (String × String)) (ignoreSigintSigquit : Bool) (env : Env)
+/-- `Env::controls_jobs`: `monitor` is on and the shell is not itself a subshell -/
+def controlsJobs (env : Env) : Bool := env.options.contains "monitor" && !env.stack.contains "Subshell"
+
+/-- `Config::start(env, task)` with `job_control` already reduced by `controls_jobs` (`jc`) and the
+    `ignores_sigint_sigquit` flag of the configuration: the parent's environment after the call and the
+    child's result. `ignore_sigint_sigquit = flag && !jc`, `keep_stoppers = !jc`. -/
+def startSubshell {β : Type} (copied : List (String × String)) (ignoresFlag jc : Bool) (env : Env)
     (task : Env → β) : Env × β :=
-  runInChild copied env (fun c => task (subshellEntry ignoreSigintSigquit c))
+  runInChild copied env (fun c => task (subshellEntry (ignoresFlag && !jc) (!jc) c))
 
 /-! ## Mutators of the sweep -/
 
@@ -318,27 +325,52 @@ def dirExists (p : String) : Bool :=
   let cs := (p.splitOn "/").filter (fun c => c ≠ "" ∧ c ≠ ".")
   cs == [] || cs == ["d1"] || cs == ["d2"] || cs == ["d1", "s"]
 
-/-- one mutator in a live shell process -/
-def applyOp (sh : Shell) (op : Op) : Shell :=
-  if sh.halted.isSome then sh else
+/-- option names the `set` built-in refuses while `portable` is on (no POSIX spelling) -/
+def nonPortableOpts : List String := ["hashondefinition", "login", "posixlycorrect"]
+
+/-- the exit status of a mutator in `env` (all succeed except `unalias` of an undefined alias and a `cd`
+    whose target does not resolve) -/
+def opStatus (env : Env) : Op → Nat
+  | .unalias a => if (env.aliases.find a).isNone then 1 else 0
+  | .cd d =>
+    let old := ((env.variables.vars.find "PWD").map (·.value)).getD ""
+    if dirExists (joinPath env.system.cwd (shorten d old)) then 0 else 2
+  | _ => 0
+
+/-- the shell exits by itself with `status` (errexit): the EXIT trap runs first -/
+def exitShell (sh : Shell) (status : Nat) : Shell :=
+  let evs := match trapCommandOf sh.env 0 with
+    | some n => [s!"T{n}"]
+    | none => []
+  { sh with events := sh.events ++ evs, halted := some status }
+
+/-- the effect of one mutator on a live shell process -/
+def applyOpCore (sh : Shell) (op : Op) : Shell :=
   let env := sh.env
+  let allexport := env.options.contains "allexport"
   match op with
   | .set n v => { sh with env := setVar env n fun o => match o with
-      | some x => { x with value := v }
-      | none => { value := v } }
+      | some x => { x with value := v, exported := x.exported || allexport }
+      | none => { value := v, exported := allexport } }
   | .unset n => { sh with env := { env with variables := { env.variables with vars := env.variables.vars.del n } } }
   | .export n v => { sh with env := setVar env n fun o => match o with
       | some x => { x with value := v, exported := true }
       | none => { value := v, exported := true } }
   | .readonly n v => { sh with env := setVar env n fun o => match o with
-      | some x => { x with value := v, readonly := true }
-      | none => { value := v, readonly := true } }
+      | some x => { x with value := v, readonly := true, exported := x.exported || allexport }
+      | none => { value := v, readonly := true, exported := allexport } }
   | .fn f b => { sh with env := { env with functions := env.functions.put f b } }
   | .unfn f => { sh with env := { env with functions := env.functions.del f } }
   | .alias a v => { sh with env := { env with aliases := env.aliases.put a v } }
   | .unalias a => { sh with env := { env with aliases := env.aliases.del a } }
-  | .optOn o => { sh with env := { env with options := insertSorted o env.options } }
-  | .optOff o => { sh with env := { env with options := env.options.filter (· ≠ o) } }
+  | .optOn o =>
+    -- a non-portable option name while `portable` is on is an error of the special built-in `set`: the shell
+    -- exits with status 2 (the generator of the sweep never produces it)
+    if env.options.contains "portable" && nonPortableOpts.contains o then { sh with halted := some 2 }
+    else { sh with env := { env with options := insertSorted o env.options } }
+  | .optOff o =>
+    if env.options.contains "portable" && nonPortableOpts.contains o then { sh with halted := some 2 }
+    else { sh with env := { env with options := env.options.filter (· ≠ o) } }
   | .shift => { sh with env := { env with variables := { env.variables with params := env.variables.params.drop 1 } } }
   | .args xs => { sh with env := { env with variables := { env.variables with params := xs } } }
   | .cd d =>
@@ -373,6 +405,16 @@ def applyOp (sh : Shell) (op : Op) : Shell :=
       | none => sh
     | .ignore => sh
     | .default => if fatalByDefault sig then { sh with halted := some (384 + sig) } else sh
+
+/-- one mutator in a shell process: nothing if the process is gone; with `errexit` a failing mutator makes the
+    shell exit with its status -/
+def applyOp (sh : Shell) (op : Op) : Shell :=
+  if sh.halted.isSome then sh else
+  let st := opStatus sh.env op
+  let r := applyOpCore sh op
+  if r.halted.isSome then r
+  else if st ≠ 0 ∧ r.env.options.contains "errexit" then exitShell r st
+  else r
 
 def applyOps (sh : Shell) (ops : List Op) : Shell := ops.foldl applyOp sh
 
@@ -430,7 +472,7 @@ inductive Kind where
   deriving DecidableEq, Repr
 
 /-- the plumbing the child performs on its own fd table before the body runs -/
-def plumb (k : Kind) (env : Env) : Env :=
+def plumb (k : Kind) (jc : Bool) (env : Env) : Env :=
   let setFd (e : Env) (n : Nat) (l : String) : Env :=
     { e with system := { e.system with fds := fdPut e.system.fds n { label := l } } }
   match k with
@@ -439,7 +481,7 @@ def plumb (k : Kind) (env : Env) : Env :=
   | .pipeF => setFd env 1 "pipe"
   | .pipeM => setFd (setFd env 0 "pipe") 1 "pipe"
   | .pipeL => setFd env 0 "pipe"
-  | .async => setFd env 0 "null"   -- `nullify_stdin` (no job control)
+  | .async => if jc then env else setFd env 0 "null"   -- `nullify_stdin` only without job control
 
 /-- `run_exit_trap` at the end of a subshell / of the shell -/
 def runExitTrap (sh : Shell) : Shell :=
@@ -458,22 +500,43 @@ def kindStatus (k : Kind) (pipefail : Bool) (childStatus : Nat) : Nat :=
   | .pipeL => childStatus
   | .async => childStatus  -- `wait $!`
 
+/-- How `yash-semantics` starts the subshell of each kind (`jc` = `env.controls_jobs()`). -/
+def startKind {β : Type} (copied : List (String × String)) (k : Kind) (jc : Bool) (env : Env) (task : Env → β)
+    : Env × β :=
+  match k with
+  | .paren => startSubshell copied false jc env task           -- `Config::foreground()`
+  | .subst => startSubshell copied false false env task        -- `Config::new()`
+  | .async => startSubshell copied true jc env task            -- background, `ignores_sigint_sigquit`
+  | _ =>
+    -- a job-controlled pipeline runs inside one foreground subshell (`execute_job_controlled_pipeline`);
+    -- each member is then a `Config::new()` subshell of that one
+    if jc then startSubshell copied false true env fun w => (startSubshell copied false false w task).2
+    else startSubshell copied false false env task
+
+/-- what follows the subshell command in the parent: with `errexit` a non-zero status ends the shell before
+    `probe ST` runs; otherwise the status is printed -/
+def finishKind (k : Kind) (out : Shell) (st : Nat) : Shell :=
+  if out.halted.isSome then out
+  else if st ≠ 0 ∧ out.env.options.contains "errexit" then exitShell out st
+  else { out with events := out.events ++ (if k == .subst then [s!"sub:0", s!"st:{st}"] else [s!"st:{st}"]) }
+
 /-- Runs `body` in a subshell of kind `k` started from the live shell `sh`; `during` are the parent's own
     mutators between `&` and `wait` (asynchronous lists only).  The child's output comes first in the
     event list of the result because the parent prints nothing until it has waited. -/
 def runKind (copied : List (String × String)) (k : Kind) (sh : Shell) (body : Shell → Shell)
     (during : List Op) : Shell :=
   if sh.halted.isSome then sh else
-  let r := startSubshell copied (k == .async) sh.env fun c => runExitTrap (body { env := plumb k c })
+  let jc := controlsJobs sh.env
+  let r : Env × Shell := startKind copied k jc sh.env fun c => runExitTrap (body { env := plumb k jc c })
   let childSh : Shell := r.2
   -- the child exits with its `$?` (`exit_or_raise`), or was killed
   let childStatus := childSh.halted.getD childSh.env.exitStatus
   -- the parent's own mutators between `&` and `wait` run on the parent's environment as restored
   let p := applyOps { env := r.1 } (if k == .async then during else [])
   let st := kindStatus k (p.env.options.contains "pipefail") childStatus
-  let evs := if k == .subst then [s!"sub:0", s!"st:{st}"] else [s!"st:{st}"]
-  { env := { p.env with exitStatus := st }, halted := p.halted,
-    events := sh.events ++ childSh.events ++ p.events ++ evs }
+  let out : Shell := { env := { p.env with exitStatus := st }, halted := p.halted,
+                       events := sh.events ++ childSh.events ++ p.events }
+  finishKind k out st
 
 /-! ## A whole case -/
 
@@ -485,7 +548,7 @@ structure Case where
 
 def initialEnv : Env :=
   { aliases := [], arg0 := "yash", builtins := [], exitStatus := 0, functions := [], jobs := ([], 0),
-    mainPgid := 2, mainPid := 2, options := ["glob", "unset"], stack := [], traps := [], tty := none,
+    mainPgid := 2, mainPid := 2, options := ["clobber", "exec", "glob", "log", "unset"], stack := [], traps := [], tty := none,
     variables := { vars := [("PWD", { value := "", exported := true })], params := [] }, any := [],
     system := { fds := [(0, { label := "in" }), (1, { label := "out" }), (2, { label := "err" })],
                 cwd := "", umask := defaultUmask,
@@ -517,6 +580,6 @@ def observation (sh : Shell) : String :=
   let nsnap := (sh.events.filter isSnap).length
   -- the EXIT trap of the shell runs after `A`; the final process state is read after it
   let rest := String.ofList (List.replicate (nsnap - 1) '=')
-  " ".intercalate sh.events ++ " fin{" ++ showSys sh.env.system ++ "} exit=0 rest=" ++ (if rest.isEmpty then "-" else rest)
+  " ".intercalate sh.events ++ " fin{" ++ showSys sh.env.system ++ "} exit=" ++ toString (sh.halted.getD 0) ++ " rest=" ++ (if rest.isEmpty then "-" else rest)
 
 end YashModel.Fork
